@@ -108,7 +108,8 @@ func makeResourceSetting(cpu float64, memory int64, cpuMap map[string]int64, num
 	resource.CPUShares = defaultCPUShare
 	resource.CPUPeriod = corecluster.CPUPeriodBase
 	if cpu > 0 {
-		resource.CPUQuota = int64(cpu * float64(corecluster.CPUPeriodBase))
+		// round: 0.29 * 100000 is 28999.999999999996 in float64
+		resource.CPUQuota = int64(math.Round(cpu * float64(corecluster.CPUPeriodBase)))
 	} else if cpu == -1 {
 		resource.CPUQuota = -1
 	}
